@@ -25,6 +25,7 @@ from .values import (
     decimal_integer,
     js_number,
     js_pow,
+    parse_float,
     to_integer,
     to_string,
     to_number,
@@ -946,85 +947,12 @@ class Context:
                 return False
             return x == int(x)
 
-        def parseInt_fn(*args):
-            s = to_string(args[0]) if args else ""
-            radix = to_integer(args[1]) if len(args) > 1 else 0
-            # The 0x prefix selects base 16 only when no other base was asked for
-            hex_prefix = radix == 0 or radix == 16
-            if radix == 0:
-                radix = 10
-            if radix < 2 or radix > 36:
-                return float("nan")
-            s = s.strip(_JS_WHITESPACE)
-            if not s:
-                return float("nan")
-            # Handle leading sign
-            sign = 1
-            if s.startswith("-"):
-                sign = -1
-                s = s[1:]
-            elif s.startswith("+"):
-                s = s[1:]
-            # Handle 0x prefix for hex
-            if hex_prefix and (s.startswith("0x") or s.startswith("0X")):
-                radix = 16
-                s = s[2:]
-            # Parse digits
-            result = 0
-            found = False
-            for ch in s:
-                if ch.isdigit():
-                    digit = ord(ch) - ord("0")
-                elif ch.isascii() and ch.isalpha():
-                    digit = ord(ch.lower()) - ord("a") + 10
-                else:
-                    break
-                if digit >= radix:
-                    break
-                result = result * radix + digit
-                found = True
-            if not found:
-                return float("nan")
-            # parseInt("-0") is -0 (a host int has no negative zero); a long digit
-            # string is rounded to a double
-            return js_number(sign * result) if result or sign > 0 else -0.0
-
-        def parseFloat_fn(*args):
-            s = to_string(args[0]) if args else ""
-            s = s.strip(_JS_WHITESPACE)
-            if not s:
-                return float("nan")
-            # Find the longest valid float prefix
-            i = 0
-            has_dot = False
-            has_exp = False
-            if s[i] in "+-":
-                i += 1
-            while i < len(s):
-                if "0" <= s[i] <= "9":
-                    i += 1
-                elif s[i] == "." and not has_dot:
-                    has_dot = True
-                    i += 1
-                elif s[i] in "eE" and not has_exp:
-                    has_exp = True
-                    i += 1
-                    if i < len(s) and s[i] in "+-":
-                        i += 1
-                else:
-                    break
-            if i == 0:
-                return float("nan")
-            try:
-                return float(s[:i])
-            except ValueError:
-                return float("nan")
-
         num_constructor.set("isNaN", isNaN_fn)
         num_constructor.set("isFinite", isFinite_fn)
         num_constructor.set("isInteger", isInteger_fn)
-        num_constructor.set("parseInt", parseInt_fn)
-        num_constructor.set("parseFloat", parseFloat_fn)
+        # The same functions as the global parseInt and parseFloat
+        num_constructor.set("parseInt", self._global_parseint)
+        num_constructor.set("parseFloat", self._global_parsefloat)
 
         return num_constructor
 
@@ -1348,43 +1276,7 @@ class Context:
 
     def _global_parsefloat(self, *args):
         """Global parseFloat."""
-        s = to_string(args[0]) if args else ""
-        s = s.strip(_JS_WHITESPACE)
-        if not s:
-            return float("nan")
-
-        # Handle Infinity
-        if s.startswith("Infinity"):
-            return float("inf")
-        if s.startswith("-Infinity"):
-            return float("-inf")
-        if s.startswith("+Infinity"):
-            return float("inf")
-
-        i = 0
-        has_dot = False
-        has_exp = False
-        if s[i] in "+-":
-            i += 1
-        while i < len(s):
-            if "0" <= s[i] <= "9":
-                i += 1
-            elif s[i] == "." and not has_dot:
-                has_dot = True
-                i += 1
-            elif s[i] in "eE" and not has_exp:
-                has_exp = True
-                i += 1
-                if i < len(s) and s[i] in "+-":
-                    i += 1
-            else:
-                break
-        if i == 0:
-            return float("nan")
-        try:
-            return float(s[:i])
-        except ValueError:
-            return float("nan")
+        return parse_float(to_string(args[0]) if args else "")
 
     def eval(self, code: str) -> Any:
         """Evaluate JavaScript code and return the result.
